@@ -42,7 +42,7 @@ AvgClasses == {Rat(0, 1), Rat(1, 1), Rat(5, 1)}
 Init == \E c \in Cfgs, p0 \in {0, 77}, a0 \in AvgClasses :
           /\ CInit(c, p0, IF c.hasMode THEN 2 ELSE 1, a0)
           /\ touched = FALSE
-          /\ zeros = 0 /\ H4Init
+          /\ zeros = 0 /\ spin = 0 /\ H4Init
 
 MeasureAbs(a) ==
   /\ cfg.hasRpm
@@ -52,7 +52,7 @@ MeasureAbs(a) ==
 
 Next ==
   \/ \E lo \in LoSet : CycleExact(0, lo, loop) /\ HCycle /\ H4Keep
-  \/ \E a \in AvgClasses : MeasureAbs(a) /\ touched' = touched /\ zeros' = 0 /\ H4Keep
+  \/ \E a \in AvgClasses : MeasureAbs(a) /\ touched' = touched /\ zeros' = 0 /\ spin' = 0 /\ H4Keep
   \/ \E pk \in PokeSet : status = "Regulating" /\ ThirdParty(pk[1], pk[2]) /\ HPoke(pk[2]) /\ H4Keep
 
 Spec == Init /\ [][Next]_pvars
